@@ -29,6 +29,7 @@ FUNCS = [
     ("src/libvncserver/rfbserver.c", "rfbReleaseClientIterator"),
     ("src/libvncserver/rfbserver.c", "rfbNewTCPOrUDPClient"),
     ("src/libvncserver/rfbserver.c", "rfbClientConnectionGone"),
+    ("src/libvncserver/rfbserver.c", "rfbProcessClientInitMessage"),
     ("src/libvncserver/rfbserver.c", "rfbSendBell"),
     ("src/libvncserver/rfbserver.c", "rfbSendServerCutText"),
     ("src/libvncserver/rfbserver.c", "rfbSendServerCutTextUTF8"),
@@ -44,7 +45,9 @@ TOKEN = re.compile(
     r"rfbShutdownSockets|rfbStartOnHoldClient|rfbNewClient|free)\s*\("
     r"|\bwrite\s*\(\s*([a-zA-Z_>\-\.]*pipe_notify[a-z_]*)"
     r"|\b(return|break|continue)\b"
-    r"|(cl->state\s*=\s*RFB_SHUTDOWN|cl->sock\s*=\s*RFB_INVALID_SOCKET|cl->state\s*(?:==|!=)\s*RFB_SHUTDOWN|cl->state\s*!=\s*RFB_NORMAL)")
+    r"|(cl->state\s*=\s*RFB_SHUTDOWN|cl->sock\s*=\s*RFB_INVALID_SOCKET|cl->state\s*(?:==|!=)\s*RFB_SHUTDOWN|cl->state\s*!=\s*RFB_NORMAL)"
+    # the same tests on a client reached through another pointer (iterator filter, other clients)
+    r"|(->state\s*(?:==|!=)\s*RFB_SHUTDOWN|->state\s*(?:==|!=)\s*RFB_NORMAL|->sock\s*<\s*0|->sock\s*==\s*RFB_INVALID_SOCKET)")
 
 
 def strip_comments(t):
@@ -140,6 +143,8 @@ def skeleton(body):
             toks.append(m.group(7))
         elif m.group(8):
             toks.append(re.sub(r"\s+", "", m.group(8)))
+        elif m.group(9):
+            toks.append("*" + re.sub(r"\s+", "", m.group(9)))
     return toks
 
 
